@@ -127,3 +127,9 @@ Theorem C19_json_default_message : forall c i,
   Ok (expl_of c i ++ [10; 10; 10] ++ or_empty (i_detail i) ++ [10] ++ or_empty (i_comment i) ++ [10]).
 Proof. exact json_default_message. Qed.
 Print Assumptions C19_json_default_message.
+
+(* markup characters are untouched by the UTF-8 encoding of the page: the statements about
+   the page text carry over to the body bytes *)
+Theorem C19_markup_bytes : forall s, mk (Utf8.encode s) = mk s.
+Proof. exact mk_encode. Qed.
+Print Assumptions C19_markup_bytes.
